@@ -38,6 +38,11 @@ func forEachCase(ctx *Ctx, n int, f func(i int, rng *rand.Rand)) {
 
 // C02: keep-alive heavy histories; unit-level elapsed/price extremes; real-clock runs.
 func runC02(ctx *Ctx) {
+	for c := 0; c < ctx.N(6, 60); c++ {
+		if ctx.Want(900000 + c) {
+			contractCase(ctx, 900000+c, ctx.Sub(900000+c), "keepalive", "c02-")
+		}
+	}
 	n := ctx.N(200, 6000)
 	forEachCase(ctx, n, func(i int, rng *rand.Rand) {
 		drv := i % 2
@@ -170,10 +175,19 @@ func c02Reconnect(ctx *Ctx, i, drv int, legacy bool) {
 
 // C03: balances driven across the minimum at connect and at a billing keep-alive.
 func runC03(ctx *Ctx) {
+	for c := 0; c < ctx.N(4, 40); c++ {
+		if ctx.Want(900000 + c) {
+			contractCase(ctx, 900000+c, ctx.Sub(900000+c), "late-deposit", "c03-")
+		}
+	}
 	n := ctx.N(200, 5000)
 	mins := []string{"-5", "0", "1", "1000", "1000000000000000000"}
 	forEachCase(ctx, n, func(i int, rng *rand.Rand) {
 		drv := i % 2
+		if i%10 == 7 {
+			c03Contract(ctx, i, drv, rng)
+			return
+		}
 		// the per-request cap on returned hosts is about peer requests only: a cut-off must reach
 		// every connected host the client peers with, however many that is
 		cfg := worldCfg{Drv: drv, Price: "1", IntervalNs: 1, Settle: true, MaxHosts: rng.Intn(3)}
@@ -284,7 +298,7 @@ func runC07(ctx *Ctx) {
 			}
 		}
 		coq, mon, done := runPoolSeq(cfg, ops)
-		ctx.Emit(Case{I: i, Kind: "withdrawals-" + driverNames[drv], Coq: coq, Desc: poolDesc{cfg, done}, Monitor: mon})
+		ctx.Emit(Case{I: i, Kind: "withdrawals-" + driverNames[drv], Coq: "C7Pool (" + coq + ")", Desc: poolDesc{cfg, done}, Monitor: mon})
 	})
 }
 
